@@ -23,6 +23,7 @@ import (
 type grpcCfg struct {
 	Custom   bool `json:"custom"`
 	CustomLE bool `json:"customle"`
+	Named    int  `json:"named"` // name / tag options: 0 none, 1 before the other options, 2 after them (no effect on the contract)
 }
 
 type grpcOp struct {
@@ -162,6 +163,14 @@ func newGrpcStack(cfg grpcCfg) *grpcStack {
 		}
 		sopts = append(sopts, grpclimit.WithStreamClientResponseTypeClassifier(f), grpclimit.WithStreamServerResponseTypeClassifier(f))
 	}
+	switch cfg.Named {
+	case 1:
+		uopts = append([]grpclimit.InterceptorOption{grpclimit.WithName("verif"), grpclimit.WithTags([]string{"k:v"})}, uopts...)
+		sopts = append([]grpclimit.StreamInterceptorOption{grpclimit.WithStreamRecvName("verif-recv"), grpclimit.WithStreamSendName("verif-send")}, sopts...)
+	case 2:
+		uopts = append(uopts, grpclimit.WithName("verif"), grpclimit.WithTags([]string{"k:v"}))
+		sopts = append(sopts, grpclimit.WithStreamRecvName("verif-recv"), grpclimit.WithStreamSendName("verif-send"))
+	}
 	st.us = grpclimit.UnaryServerInterceptor(uopts...)
 	st.uc = grpclimit.UnaryClientInterceptor(uopts...)
 	st.ss = grpclimit.StreamServerInterceptor(sopts...)
@@ -285,7 +294,7 @@ func TestGrpcRandom(t *testing.T) {
 		if k%25 == 0 {
 			// a new set of interceptors; the next 25 operations (a sequence of unary calls and of RecvMsg / SendMsg on
 			// streams of the same interceptor) all go through it
-			cfg = grpcCfg{Custom: r.chance(1, 2), CustomLE: r.chance(1, 2)}
+			cfg = grpcCfg{Custom: r.chance(1, 2), CustomLE: r.chance(1, 2), Named: r.intn(3)}
 			st = newGrpcStack(cfg)
 		}
 		op := grpcOp{Kind: r.pick(kinds), Grant: r.chance(3, 5), Err: r.chance(1, 2), Cls: r.pick(cls), LeCode: []string{"Unavailable", "Aborted"}[r.intn(2)]}
